@@ -204,6 +204,10 @@ Lemma map_to_nat_of_nat : forall l, map N.to_nat (map N.of_nat l) = l.
 Proof. induction l as [|x r IH]; [reflexivity|]. cbn [map]. rewrite Nat2N.id, IH. reflexivity. Qed.
 
 (* ---------- the refinement ---------- *)
+Local Arguments N.mul : simpl never.
+Local Arguments N.div : simpl never.
+Local Arguments N.add : simpl never.
+Local Arguments N.sub : simpl never.
 Theorem get_view_correct : forall nodes ipfx lpfx leaves m vs,
   wf_from ipfx lpfx nodes 0 0 0 true = true ->
   encode_msg nodes ipfx lpfx leaves = Val m -> init_vars m = Val vs ->
@@ -216,7 +220,9 @@ Proof.
   destruct (wf_records _ _ _ _ _ _ _ Hwf) as (Hrec & Hprec & Hmode & Htails).
   set (ins := inners_of nodes) in *. set (tails := tails_of nodes) in *.
   subst m.
-  rewrite (init_vars_m ins s table most iw sbw _ _ _ _ Hs Lsb Gsb) in Hvs. injection Hvs as <-.
+  assert (Evs : vs = mkVars (240 * count_big ins) (Z.of_N s - 17) (N.ones s)).
+  { rewrite (init_vars_m ins s table most iw sbw _ _ _ _ Hs Lsb Gsb) in Hvs. congruence. }
+  subst vs.
   unfold get_view, get_node. cbn [m_nodetype].
   change (b_words (index_bm ntw R64)) with ntw. change (b_rank (index_bm ntw R64)) with (index_rank64 ntw 0).
   rewrite (node_type_rank ipfx lpfx nodes ntw p v Hwf Ont Lnt Gnt Hp). cbn [obind].
@@ -254,7 +260,7 @@ Proof.
     destruct (expect_prefix ipfx i) as [plen pfxb] eqn:Eexp. cbn [obind].
     rewrite (node_labels_correct ins s table most iw sbw _ _ _ _ Hs Htab Hrec Hiw Lsb Gsb j i bm Hi Hbm). cbn [obind].
     rewrite (first_child_correct ins s table most iw sbw _ _ _ _ Hs Htab Hrec Hiw Lsb Gsb j i Hi). cbn [obind].
-    unfold j at 1. rewrite labels_before_eq.
+    change (labels_before ins j) with (labels_before (inners_of nodes) (inners_before nodes p)). rewrite labels_before_eq.
     rewrite Forall_forall in Hmode, Hprec.
     pose proof (Hmode i (nth_error_In _ _ Hi)) as Hmi. pose proof (Hprec i (nth_error_In _ _ Hi)) as Hpi.
     unfold pfx_mode_ok in Hmi. unfold prec_ok in Hpi. unfold expect_prefix in Eexp.
@@ -270,4 +276,140 @@ Proof.
       * injection Eexp as <- <-. reflexivity.
     + subst pfx. injection Eexp as <- <-.
       replace (N.to_nat (4 * N.of_nat step / 4)) with step by lia. reflexivity.
+Qed.
+
+(* getNode on an inner node, then getLeftChildID for every label bit and the last child:
+   the child behind the label with index x in [labels] is node fc + x *)
+Theorem children_correct : forall nodes ipfx lpfx leaves m vs,
+  wf_from ipfx lpfx nodes 0 0 0 true = true ->
+  encode_msg nodes ipfx lpfx leaves = Val m -> init_vars m = Val vs ->
+  forall p id big step pfx fc labels,
+    nth_error nodes p = Some (VInner id big step pfx fc labels) ->
+    exists ith wsz from to bm plen pfxb,
+      get_node m vs (N.of_nat p) = Val (DInner ith wsz from to bm plen pfxb) /\
+      first_child m from = Val (N.of_nat fc) /\
+      last_child m to = Val (N.of_nat (fc + length labels - 1)) /\
+      forall k, k < (if big then 257 else 17) ->
+        left_child m from to bm k =
+        Val (N.of_nat (fc - 1 + count_lt (map N.of_nat labels) k),
+             N.b2n (existsb (N.eqb k) (map N.of_nat labels))).
+Proof.
+  intros nodes ipfx lpfx leaves m vs Hwf Henc Hvs p id big step pfx fc labels Hp.
+  assert (Hne : nodes <> []) by (destruct nodes; [destruct p; discriminate|discriminate]).
+  destruct (encode_open nodes ipfx lpfx leaves Hwf Hne) as (m' & Em' & F). rewrite Henc in Em'. injection Em' as <-.
+  destruct F as [s table most c d ntw sbw iw ppw ip lpo lv Em Hs Htab Hbig Hiw Osb Lsb Gsb Ont Lnt Gnt Opp Lpp Gpp Hip Hlp Hlv].
+  destruct (wf_records _ _ _ _ _ _ _ Hwf) as (Hrec & Hprec & Hmode & Htails).
+  set (ins := inners_of nodes) in *.
+  subst m.
+  assert (Evs : vs = mkVars (240 * count_big ins) (Z.of_N s - 17) (N.ones s)).
+  { rewrite (init_vars_m ins s table most iw sbw _ _ _ _ Hs Lsb Gsb) in Hvs. congruence. }
+  subst vs.
+  unfold get_node. cbn [m_nodetype].
+  change (b_words (index_bm ntw R64)) with ntw. change (b_rank (index_bm ntw R64)) with (index_rank64 ntw 0).
+  rewrite (node_type_rank ipfx lpfx nodes ntw p _ Hwf Ont Lnt Gnt Hp). cbn [obind is_inner_v N.b2n N.eqb].
+  pose proof (wf_from_nth _ _ _ _ _ _ _ p _ Hwf Hp) as Hv.
+  destruct Hv as (Hid & Hfc & Hlok & Hpok). cbn [Nat.add] in Hid, Hfc. subst id fc.
+  pose proof (inners_of_nth nodes p _ _ _ _ _ _ Hp) as Hi. fold ins in Hi.
+  set (j := inners_before nodes p) in *. set (i := rec_of p big step pfx labels) in *.
+  destruct (inner_range_correct ins s table most iw sbw c d (Some (index_bm ntw R64)) (Some ip) lpo lv
+              Hs Htab Hrec Hbig Hiw Osb Lsb Gsb j i Hi) as (bm & Erange & Hbm).
+  rewrite Erange. cbn [obind].
+  assert (Epfx : inner_prefix
+     (mkMsg (count_big ins) s (Some (index_bm ntw R64)) (Some (index_bm iw R128)) (Some (index_bm sbw R64)) table (Some ip) lpo lv)
+     (N.of_nat j) = Val (expect_prefix ipfx i)).
+  { destruct ipfx.
+    - destruct Hip as (ps & Eps & ->).
+      apply (inner_prefix_stored ins true ppw _ _ _ _ _ _ _ _ Opp Lpp Gpp Hprec ps eq_refl Eps j i Hi).
+    - subst ip. apply (inner_prefix_steps ins false ppw _ _ _ _ _ _ _ _ Opp Lpp Gpp Hprec eq_refl j i Hi). }
+  rewrite Epfx. cbn [obind]. destruct (expect_prefix ipfx i) as [plen pfxb].
+  do 7 eexists. split; [reflexivity|].
+  assert (Elb : labels_before ins j = lab_before nodes p) by apply labels_before_eq.
+  assert (Ell : length (i_labels i) = length labels) by (cbn [i rec_of i_labels]; apply map_length).
+  split; [|split].
+  - rewrite (first_child_correct ins s table most iw sbw _ _ _ _ Hs Htab Hrec Hiw Lsb Gsb j i Hi). rewrite Elb. f_equal. lia.
+  - rewrite (last_child_correct ins s table most iw sbw _ _ _ _ Hs Htab Hrec Hiw Lsb Gsb j i Hi). rewrite Elb, Ell.
+    f_equal. destruct (labels_ok_spec _ _ Hlok) as (Hn & _). destruct labels; [congruence|]. cbn [length]. lia.
+  - intros k Hk.
+    rewrite (left_child_correct ins s table most iw sbw _ _ _ _ Hs Htab Hrec Hiw Lsb Gsb j i bm k Hi Hbm Hk).
+    rewrite Elb. cbn [i rec_of i_labels]. f_equal. f_equal. lia.
+Qed.
+
+(* getIthLeafBytes on the encoded message *)
+Theorem leaves_correct : forall nodes ipfx lpfx leaves m,
+  wf_from ipfx lpfx nodes 0 0 0 true = true -> nodes <> [] ->
+  encode_msg nodes ipfx lpfx leaves = Val m ->
+  match leaves with
+  | None => forall l, ith_leaf_bytes m l = Val None
+  | Some elts =>
+    (Forall (fun e => e = []) elts -> forall l, ith_leaf_bytes m l = Val None) /\
+    (~ Forall (fun e => e = []) elts ->
+     (forall l, (l < length elts)%nat -> ith_leaf_bytes m (N.of_nat l) = Val (Some (nth l elts []))) /\
+     (forall l, blen elts <= l -> ith_leaf_bytes m l = Panic))
+  end.
+Proof.
+  intros nodes ipfx lpfx leaves m Hwf Hne Henc.
+  destruct (encode_open nodes ipfx lpfx leaves Hwf Hne) as (m' & Em' & F). rewrite Henc in Em'. injection Em' as <-.
+  destruct F as [s table most c d ntw sbw iw ppw ip lpo lv Em Hs Htab Hbig Hiw Osb Lsb Gsb Ont Lnt Gnt Opp Lpp Gpp Hip Hlp Hlv].
+  subst m. unfold ith_leaf_bytes. cbn [m_leaves]. destruct leaves as [elts|].
+  - destruct (new_vlen_total elts) as (r & Er & Hr). rewrite Hlv in Er. injection Er as <-. split.
+    + intros Hall l. apply Hr in Hall. subst lv. reflexivity.
+    + intros Hnot. destruct lv as [va|]; [|exfalso; apply Hnot, Hr; reflexivity]. split.
+      * intros l Hl. rewrite (vlen_get_correct elts va l Hlv Hl). reflexivity.
+      * intros l Hl. rewrite (vlen_get_out_of_bound elts va l Hlv Hl). reflexivity.
+  - subst lv. reflexivity.
+Qed.
+
+(* creator.build and initVars never panic on a well-formed list *)
+Theorem encode_total : forall nodes ipfx lpfx leaves,
+  wf_from ipfx lpfx nodes 0 0 0 true = true -> nodes <> [] ->
+  exists m vs, encode_msg nodes ipfx lpfx leaves = Val m /\ init_vars m = Val vs /\ m_shortsize m <= 10.
+Proof.
+  intros nodes ipfx lpfx leaves Hwf Hne.
+  destruct (encode_open nodes ipfx lpfx leaves Hwf Hne) as (m & Em & F). exists m.
+  destruct F as [s table most c d ntw sbw iw ppw ip lpo lv E Hs Htab Hbig Hiw Osb Lsb Gsb Ont Lnt Gnt Opp Lpp Gpp Hip Hlp Hlv].
+  subst m. eexists. split; [exact Em|]. split; [|exact Hs].
+  apply (init_vars_m (inners_of nodes) s table most iw sbw _ _ _ _ Hs Lsb Gsb).
+Qed.
+
+(* ---------- no panic is reachable in the decoder on an encoded message ---------- *)
+Lemma obind_val : forall {A B} (r : out A) (f : A -> out B) b, obind r f = Val b -> exists a, r = Val a /\ f a = Val b.
+Proof. intros A B [a|] f b H; [eauto|discriminate]. Qed.
+
+Theorem decoder_no_panic : forall nodes ipfx lpfx leaves m vs,
+  flat_wf ipfx lpfx nodes leaves = true ->
+  encode_msg nodes ipfx lpfx leaves = Val m -> init_vars m = Val vs ->
+  forall p v, nth_error nodes p = Some v ->
+    (exists d, get_node m vs (N.of_nat p) = Val d) /\
+    match v with
+    | VLeaf _ ord _ => exists b, ith_leaf_bytes m (N.of_nat ord) = Val b
+    | VInner _ big _ _ _ _ =>
+      forall ith wsz from to bm plen pfxb,
+        get_node m vs (N.of_nat p) = Val (DInner ith wsz from to bm plen pfxb) ->
+        (exists l, node_labels m from to bm = Val l) /\
+        (exists c, first_child m from = Val c) /\ (exists c, last_child m to = Val c) /\
+        (forall k, k < (if big then 257 else 17) -> exists r, left_child m from to bm k = Val r)
+    end.
+Proof.
+  intros nodes ipfx lpfx leaves m vs Hfw Henc Hvs p v Hp.
+  unfold flat_wf in Hfw. apply andb_true_iff in Hfw. destruct Hfw as [Hwf Hlv].
+  pose proof (get_view_correct nodes ipfx lpfx leaves m vs Hwf Henc Hvs p v Hp) as Hview.
+  unfold get_view in Hview. apply obind_val in Hview. destruct Hview as (d & Ed & Hd).
+  split; [eauto|]. destruct v as [id ord tail|id big step pfx fc labels].
+  - (* the leaf value *)
+    assert (Hne : nodes <> []) by (destruct nodes; [destruct p; discriminate|discriminate]).
+    pose proof (leaves_correct nodes ipfx lpfx leaves m Hwf Hne Henc) as Hl.
+    pose proof (wf_from_nth _ _ _ _ _ _ _ p _ Hwf Hp) as (_ & Hord & _). cbn [Nat.add] in Hord.
+    pose proof (tails_of_nth nodes p _ _ _ Hp) as Ht.
+    assert (Hlt : (ord < length (tails_of nodes))%nat) by (subst ord; apply nth_error_Some; congruence).
+    destruct leaves as [elts|]; [|eexists; apply Hl].
+    unfold leaves_ok in Hlv. apply Nat.eqb_eq in Hlv. destruct Hl as [Hl1 Hl2].
+    destruct (Forall_dec (fun e : list byte => e = []) (fun e => match e with [] => left eq_refl | _ :: _ => right ltac:(discriminate) end) elts) as [Ha|Hn].
+    + eexists. apply Hl1. exact Ha.
+    + eexists. apply (proj1 (Hl2 Hn)). lia.
+  - intros ith wsz from to bm plen pfxb Hg.
+    destruct (children_correct nodes ipfx lpfx leaves m vs Hwf Henc Hvs p _ _ _ _ _ _ Hp)
+      as (ith' & wsz' & from' & to' & bm' & plen' & pfxb' & Hg' & Hfc & Hlc & Hch).
+    rewrite Hg in Hg'. injection Hg' as <- <- <- <- <- <- <-.
+    rewrite Ed in Hg. injection Hg as ->. apply obind_val in Hd. destruct Hd as (l & El & _).
+    repeat split; eauto.
 Qed.
